@@ -151,8 +151,9 @@ CHECKS.update({
                 'decode(encode(v) ++ rest) == (len, Norm(v)) with the same Python type for every scalar type class.',
         'design_ref': 'DESIGN.md 4 C03',
         'note': COMMON_NOTE + 'For containers the composition of the two verified contracts (dec(enc(d)) == Norm(d)) is a '
-                'specification-level induction: taken as an axiom in the lemma and exercised by a bounded pipeline check against an '
-                'independent reference codec. encode.decimal (string / Decimal library arithmetic) is bounded only.',
+                'specification-level structural induction: base and step are discharged by the unit spec.container-round-trip, the '
+                'induction principle is the meta-rule (A11); additionally exercised by a bounded pipeline check against an '
+                'independent reference codec. The decimal codecs are verified under the assumed Decimal library model (A5).',
     },
     'C10': {
         'text': 'Every encoder contract ranges over ALL Python type classes (bool, int, float, Decimal, str, bytes, bytearray, naive '
